@@ -150,9 +150,9 @@ func VH_Tokens() {
 		case 'S', 'k', 'w', 'p':
 			arg = vASCII("arg", vLen("arglen", vParam("arghole", 3)))
 		case '#':
-			arg = []string{"foo", "x=y", "-"}[vChoose("stray", 3)]
+			arg = []string{"foo", "x=y", "-", "''", `""`}[vChoose("stray", 5)] // incl. empty quoted words
 		}
-		for j := 0; j < len(arg); j++ {
+		for j := 0; j < len(arg) && k != '#'; j++ {
 			vAssume(arg[j] != '\'') // so that single-quoting is exact
 		}
 		toks = append(toks, vTok{k, arg})
